@@ -219,7 +219,7 @@ B("_retrySubscribe without the 3.1 test", ["C08"],
 B("_retryPublish dup << 2", ["C08"],
   [(PS, "        request.encoded[0] |=  (dup << 3)   # set the dup flag\n        request.dup = dup", "        request.encoded[0] |=  (dup << 2)   # set the dup flag\n        request.dup = dup")], {"C08": ["R-DUP"]})
 B("resume with dup=False", ["C08"],
-  [(PS, "        for _, request in self.factory.windowPublish[self.addr].items():\n            self._retryPublish(request, dup=True)", "        for _, request in self.factory.windowPublish[self.addr].items():\n            self._retryPublish(request, dup=False)")], {"C08": ["R-DUP"]})
+  [(PS, "            if request.alarm is None:\n                self._retryPublish(request, dup=True)", "            if request.alarm is None:\n                self._retryPublish(request, dup=False)")], {"C08": ["R-DUP"]})
 B("PUBLISH DUP only under 3.1", ["C08"],
   [(PS, "        request.encoded[0] |=  (dup << 3)   # set the dup flag\n        request.dup = dup", "        if self._version == v31:\n            request.encoded[0] |=  (dup << 3)   # set the dup flag\n        request.dup = dup")], {"C08": ["R-DUP"]})
 B("constant retry delay", ["C08"],
@@ -276,10 +276,14 @@ B("handleSUBACK without cancel", ["C13"],
 B("loss path without the publish cancel loop", ["C13"],
   [(PS, "        for _, request in self.factory.windowPublish[self.addr].items():\n            if request.alarm is not None:\n                request.alarm.cancel()\n                request.alarm = None\n        for _, request in self.factory.windowPubRelease", "        for _, request in self.factory.windowPubRelease")],
   {"C13": ["R-LOSS"]})
-B("purge without cancel (D8 re-introduced)", ["C13"],
-  [(PS, "            del self.factory.windowPublish[self.addr][k]\n            if request.alarm is not None:\n                request.alarm.cancel()\n                request.alarm = None\n", "            del self.factory.windowPublish[self.addr][k]\n")], {"C13": ["R-CANCEL"]})
-B("resume without cancel-before-re-arm (D9 re-introduced)", ["C13"],
-  [(PS, "            if request.alarm is not None:\n                request.alarm.cancel()\n            self._retryPublish(request, dup=True)", "            self._retryPublish(request, dup=True)")], {"C13": ["R-ARM"]})
+B("purge of every entry, pending ones included (D8 re-introduced)", ["C13", "C12"],
+  [(PS, "            if request.alarm is not None:\n                # requested on this connection (before its CONNACK), it is not\n                # part of the session being purged\n                continue\n", "")],
+  {"C13": ["R-CANCEL"], "C12": ["Y-EXEMPT"]})
+B("resume of every entry, pending ones included (D9 re-introduced)", ["C13", "C12", "C09"],
+  [(PS, "            if request.alarm is None:\n                self._retryPublish(request, dup=True)", "            self._retryPublish(request, dup=True)")],
+  {"C13": ["R-ARM"], "C12": ["Y-EXEMPT"], "C09": ["Q-TIMER"]})
+N("carried-over test written with `is not None` and else", ["C12", "C13", "C09", "C08"],
+  [(PS, "            if request.alarm is None:\n                self._retryPublish(request, dup=True)", "            if request.alarm is not None:\n                pass\n            else:\n                self._retryPublish(request, dup=True)")])
 B("connectionLost without timer.stop()", ["C13"],
   [(BASE, "            self._pingReq.timer.stop()\n", "")], {"C13": ["R-LOSS"]})
 B("doPingError keeps its fired handle (D13 re-introduced)", ["C13"],
@@ -368,8 +372,8 @@ B("resume/purge branches swapped", ["C12"],
   [(PS, "        if self._cleanStart:\n            self._purgeSession(MQTTSessionCleared())\n        else:\n            self._syncSession()", "        if not self._cleanStart:\n            self._purgeSession(MQTTSessionCleared())\n        else:\n            self._syncSession()")],
   {"C12": ["Y-RESUME", "Y-PURGE"]})
 B("resume over sorted(reverse=True)", ["C12"],
-  [(PS, "        for _, request in self.factory.windowPublish[self.addr].items():\n            if request.alarm is not None:\n                request.alarm.cancel()\n            self._retryPublish(request, dup=True)",
-    "        for _, request in sorted(self.factory.windowPublish[self.addr].items(), reverse=True):\n            if request.alarm is not None:\n                request.alarm.cancel()\n            self._retryPublish(request, dup=True)")], {"C12": ["Y-ORDER"]})
+  [(PS, "        for _, request in self.factory.windowPublish[self.addr].items():\n            # only what an earlier connection left behind",
+    "        for _, request in sorted(self.factory.windowPublish[self.addr].items(), reverse=True):\n            # only what an earlier connection left behind")], {"C12": ["Y-ORDER"]})
 B("loss path fires regardless of session", ["C12"],
   [(PS, "        # Then, invoke errbacks anyway if we do not persist state\n        if self._cleanStart:", "        # Then, invoke errbacks anyway if we do not persist state\n        if True:")], {"C12": ["Y-KEEP"]})
 B("resume skips the release window", ["C12"],
